@@ -34,7 +34,7 @@ def bellman_residual(g, pr, x):
 
 
 def check(ctx, recs):
-    budget = 120 if ctx.quick else 1500
+    budget = 600 if ctx.quick else 4000
     for r in recs:
         if not r.ok or r.op != "solve":
             continue
@@ -80,6 +80,7 @@ def known_k1(ctx):
 
 def run(ctx):
     games = [(gen_games.FIG55, gen_games.FIG55_META)] + sc.corpus_games() + gen_games.pattern_games(3)
+    games += gen_games.pattern_games3(2 if ctx.quick else 3)
     games += gen_games.mixed_games(ctx.rng, 260 if ctx.quick else 5000, 3, 9, styles=("stopping", "exact", "ties"))
     recs = sc.run_games(ctx, games, limit=10, tag="c02")
     sc.correspondence(ctx, recs, "cmp_rewards", "c02")
